@@ -170,6 +170,16 @@ class Inventory:
                 self.stats["sem"] = self.stats.get("sem", 0) + 1
                 return
             # not clean: fall through to the generic inventory so that the individual sites are reported as well
+        if f.path == "message_frame::MessageFrame::new":
+            # decided by abstract interpretation (framesem): every Assert terminator, index and slice operation is evaluated on
+            # every abstract path; a clean run means none can fail
+            import framing
+            sem = framing.frame_semantics(prog)
+            if not sem["undecided"] and not [1 for c, t_ in sem["problems"] if c == "panic"]:
+                self.res.ob("P-sem", "new | every Assert terminator, index and slice operation of MessageFrame::new is decided on every abstract path", True,
+                            "framesem: %d paths over L in {0}, {1}, [2,1023]" % sem["paths"], f.loc)
+                self.stats["sem"] = self.stats.get("sem", 0) + 1
+                return
         fa = FA(f, prog)
         iv = Intervals(fa, prog, assume=assume)
         names = fa.names
